@@ -1,0 +1,98 @@
+//! C11: replicated merges of session / oauth2 session / key-internal / audit-log valuesets.
+//!
+//! * `merge_attr` runs the real `Entry::merge_state` on two live single-attribute entries
+//!   (see `Entry::verif_merge_attr` at the end of entry.rs), so the newer/older role choice
+//!   (`take_left`) and the valueset's `repl_merge_valueset` are exercised exactly as
+//!   incremental replication does.
+//! * `key_internal_build` / `key_internal_dump` convert `ValueSetKeyInternal` (whose key id
+//!   type lives in a crate-private module) from and to plain values.
+
+use crate::prelude::*;
+use crate::schema::SchemaTransaction;
+use crate::server::keys::KeyId;
+use crate::value::{KeyStatus, KeyUsage};
+use crate::valueset::{KeyInternalData, ValueSetKeyInternal};
+use crypto_glue::traits::Zeroizing;
+
+/// Plain mirror of one `(KeyId, KeyInternalData)` element.
+#[derive(Debug, Clone, PartialEq, Eq)]
+pub struct HookKey {
+    pub id: String,
+    /// 0 JwsEs256, 1 JwsHs256, 2 JwsRs256, 3 JweA128GCM, 4 HkdfS256
+    pub usage: u8,
+    pub valid_from: u64,
+    /// 0 Valid, 1 Retained, 2 Revoked
+    pub status: u8,
+    pub status_cid: Cid,
+    pub der: Vec<u8>,
+}
+
+pub fn key_internal_build(keys: &[HookKey]) -> Option<ValueSet> {
+    let mut out = Vec::with_capacity(keys.len());
+    for k in keys {
+        let usage = match k.usage {
+            0 => KeyUsage::JwsEs256,
+            1 => KeyUsage::JwsHs256,
+            2 => KeyUsage::JwsRs256,
+            3 => KeyUsage::JweA128GCM,
+            4 => KeyUsage::HkdfS256,
+            _ => return None,
+        };
+        let status = match k.status {
+            0 => KeyStatus::Valid,
+            1 => KeyStatus::Retained,
+            2 => KeyStatus::Revoked,
+            _ => return None,
+        };
+        out.push((
+            KeyId::from(k.id.clone()),
+            KeyInternalData {
+                usage,
+                valid_from: k.valid_from,
+                status,
+                status_cid: k.status_cid.clone(),
+                der: Zeroizing::new(k.der.clone()),
+            },
+        ));
+    }
+    ValueSetKeyInternal::from_key_iter(out.into_iter()).ok()
+}
+
+/// Elements in the valueset's own (BTreeMap) iteration order.
+pub fn key_internal_dump(vs: &ValueSet) -> Option<Vec<HookKey>> {
+    let map = vs.as_key_internal_map()?;
+    Some(
+        map.iter()
+            .map(|(id, d)| HookKey {
+                id: id.to_string(),
+                usage: match d.usage {
+                    KeyUsage::JwsEs256 => 0,
+                    KeyUsage::JwsHs256 => 1,
+                    KeyUsage::JwsRs256 => 2,
+                    KeyUsage::JweA128GCM => 3,
+                    KeyUsage::HkdfS256 => 4,
+                },
+                valid_from: d.valid_from,
+                status: match d.status {
+                    KeyStatus::Valid => 0,
+                    KeyStatus::Retained => 1,
+                    KeyStatus::Revoked => 2,
+                },
+                status_cid: d.status_cid.clone(),
+                der: d.der.to_vec(),
+            })
+            .collect(),
+    )
+}
+
+/// `left` plays the incoming replicated entry, `right` the entry already in the database.
+/// Returns the merged attribute's change id and valueset.
+pub fn merge_attr(
+    attr: &Attribute,
+    left: (&Cid, &ValueSet),
+    right: (&Cid, &ValueSet),
+    schema: &dyn SchemaTransaction,
+    trim_cid: &Cid,
+) -> (Option<Cid>, Option<ValueSet>) {
+    EntryIncrementalNew::verif_merge_attr(attr, left, right, schema, trim_cid)
+}
